@@ -68,6 +68,24 @@ def getIndexValue(idx, pos):
     return idx.value
 
 
+def bindLoopVariables(identifiers, value, environment, pos):
+    if len(identifiers) == 1:
+        environment.put(identifiers[0], value)
+        return
+    if value.isList():
+        vals = value.value
+    elif value.isSet():
+        vals = value.getSortedItems()
+    else:
+        raise CklRuntimeError(
+            ValueString("ERROR"),
+            f"Destructuring for expects list or set but got {value.type()}",
+            pos,
+        )
+    for i in range(len(identifiers)):
+        environment.put(identifiers[i], vals[i] if i < len(vals) else NULL)
+
+
 def getFuncallString(fn, args):
     return f"{fn.name}({args.toStringAbbrev()})"
 
@@ -805,15 +823,9 @@ class NodeFor:
                 line = input_.readLine()
                 while line:
                     value = ValueString(line)
-                    if len(self.identifiers) == 1:
-                        environment.put(self.identifiers[0], value)
-                    else:
-                        if value.isList():
-                            vals = value.value
-                        elif value.isSet():
-                            vals = value.getSortedItems()
-                        for i in range(len(self.identifiers)):
-                            environment.put(self.identifiers[i], vals[i])
+                    bindLoopVariables(
+                        self.identifiers, value, environment, self.pos
+                    )
 
                     result = self.block.evaluate(environment)
                     if result.isBreak():
@@ -840,15 +852,9 @@ class NodeFor:
             values = lst.value
             result = TRUE
             for value in values:
-                if len(self.identifiers) == 1:
-                    environment.put(self.identifiers[0], value)
-                else:
-                    if value.isList():
-                        vals = value.value
-                    elif value.isSet():
-                        vals = value.getSortedItems()
-                    for i in range(len(self.identifiers)):
-                        environment.put(self.identifiers[i], vals[i])
+                bindLoopVariables(
+                    self.identifiers, value, environment, self.pos
+                )
                 result = self.block.evaluate(environment)
                 if result.isBreak():
                     result = TRUE
@@ -870,15 +876,9 @@ class NodeFor:
             values = lst.getSortedItems()
             result = TRUE
             for value in values:
-                if len(self.identifiers) == 1:
-                    environment.put(self.identifiers[0], value)
-                else:
-                    if value.isList():
-                        vals = value.value
-                    elif value.isSet():
-                        vals = value.getSortedItems()
-                    for i in range(len(self.identifiers)):
-                        environment.put(self.identifiers[i], vals[i])
+                bindLoopVariables(
+                    self.identifiers, value, environment, self.pos
+                )
                 result = self.block.evaluate(environment)
                 if result.isBreak():
                     result = TRUE
@@ -909,15 +909,9 @@ class NodeFor:
                     val = ValueList()
                     val.addItem(key)
                     val.addItem(value)
-                if len(self.identifiers) == 1:
-                    environment.put(self.identifiers[0], val)
-                else:
-                    if val.isList():
-                        vals = val.value
-                    elif val.isSet():
-                        vals = val.getSortedItems()
-                    for i in range(len(self.identifiers)):
-                        environment.put(self.identifiers[i], vals[i])
+                bindLoopVariables(
+                    self.identifiers, val, environment, self.pos
+                )
                 result = self.block.evaluate(environment)
                 if result.isBreak():
                     result = TRUE
@@ -948,15 +942,9 @@ class NodeFor:
                     val = ValueList()
                     val.addItem(ValueString(key))
                     val.addItem(value)
-                if len(self.identifiers) == 1:
-                    environment.put(self.identifiers[0], val)
-                else:
-                    if val.isList():
-                        vals = val.value
-                    elif val.isSet():
-                        vals = val.getSortedItems()
-                    for i in range(len(self.identifiers)):
-                        environment.put(self.identifiers[i], vals[i])
+                bindLoopVariables(
+                    self.identifiers, val, environment, self.pos
+                )
                 result = self.block.evaluate(environment)
                 if result.isBreak():
                     result = TRUE
